@@ -5,7 +5,7 @@ sd=$1; shift
 [ -d "$sd" ] || sd=/verif/seeded/$sd
 d=$(mktemp -d ${TMPDIR:-/tmp}/tryseedXXXX)
 rsync -a --exclude .git ${SRC:-/repo/v8}/ $d/
-( cd $d && patch -p2 -s --no-backup-if-mismatch < $sd/patch.diff && go build ./... ) || { echo "apply/build failed"; rm -rf $d; exit 2; }
+( cd $d && patch -p2 -s --no-backup-if-mismatch < $sd/patch.diff && go build -trimpath ./... ) || { echo "apply/build failed"; rm -rf $d; exit 2; }
 for p in "$@"; do
   /verif/bin/gokrb5lint check $p -noevidence -repo $d 2>&1 | grep -A2 "^violation" | cut -c1-400
 done
